@@ -66,7 +66,7 @@ def expected_records(conc, recs):
         c = r['counter']
         if c['pre'] != '':
             if c['bs']:
-                o['counter'] = {'pre': conc.value(hashable(c['pre']), 'counter:braced'), 'bs': [conc.bucket(hashable(b)) for b in c['bs']]}
+                o['counter'] = {'pre': conc.value(hashable(c['pre']), 'counter:braced'), 'bs': [x for b in c['bs'] for x in conc.bucket(hashable(b)).split(',')]}
             else:
                 o['counter'] = U.abstract_counter(conc.value(hashable(c['pre']), 'counter'))
         out.append(o)
@@ -237,6 +237,7 @@ def run(ctx):
         '"every known version not older than the smallest minimum" is checked as a superset condition on the listed versions; listing additional (older or padded) versions is not judged',
         'version order: Go versions by (major, minor, language version < beta < rc < release, patch); semantic versions by semver precedence (canonical versions without build metadata)',
         'each counter expression must be listed exactly as often as there are records for it (as a stack iff the record has depth > 0) and no other expression may be listed',
+        'the syntax puts no bound on line length: one description / one-line bucket list / comment / line of a multi-line bucket list per text is rendered with 65535, 65536, up to ~95 KiB and just above 1 MiB bytes (ChartConfigLong.tla); longer lines are not tried',
     ]
     ctx.inject('internal/verifh/c17', 'internal/configgen')
 
@@ -293,6 +294,25 @@ def run(ctx):
             text = conc.text(v['lines'])
             batch.add(text, src='render', lines=v['lines'], exp=expected_records(conc, v['want']), id=nrender)
     ctx.log('render vectors:', nrender)
+    # A3. line-length classes: one line of each kind, in the first / middle / last record,
+    #     rendered just below / at / above 64 KiB and above 1 MiB
+    r = ctx.tlc('ChartConfigLong', dump=True, label='ChartConfigLong', timeout=600)
+    if not r.ok:
+        raise Infra('ChartConfigLong: the round trip fails in the specification: %s %s\n%s' % (r.error, r.error_name, r.out[-3000:]))
+    nlong = 0
+    for bi, block in enumerate(dump_blocks(r.dump)):
+        v = dump_vars(block, ('lines', 'want', 'longAt', 'kind', 'cls', 'pos'))
+        for rep in range(ctx.pick(1, 3)):
+            lr = random.Random(ctx.seed * 15485863 + bi * 3 + rep)
+            conc = U.Concretizer(lr)
+            target = U.LONG_SIZES[v['cls']](lr)
+            out = U.inflate(conc, v['lines'], v['longAt'] - 1, v['kind'], target)
+            text = '\n'.join(out) + ('\n' if lr.random() < 0.5 else '')
+            nlong += 1
+            batch.add(text, src='long', lines=v['lines'], exp=expected_records(conc, v['want']), id=bi,
+                      long={'kind': v['kind'], 'class': v['cls'], 'bytes': target, 'record': v['pos'], 'line': v['longAt']})
+    ctx.log('long-line vectors:', nlong)
+    ctx.cov['long_line_vectors'] = nlong
     res, summ = run_parse(ctx, batch)
     matched = 0
     unspec_accepted = 0
@@ -317,16 +337,23 @@ def run(ctx):
                         ctx.warn('MODEL-DIVERGENCE: Parse accepts a record that repeats a scalar field: %r' % meta['text'][:200])
             matched += 1
             continue
+        if meta.get('long'):
+            # keep the replay file and the message readable: cut every line
+            meta = dict(meta, text='\n'.join(l if len(l) <= 160 else l[:120] + '...[%d bytes]' % len(l.encode('utf-8')) for l in meta['text'].split('\n')),
+                        exp='(the 3 records of ChartConfigLong.tla)')
+        lsig = ':long-line:%s' % meta['long']['kind'] if meta.get('long') else ''
+        lmsg = ' [line %(line)d (%(kind)s, record %(record)d of 3) is %(bytes)d bytes long]' % meta['long'] if meta.get('long') else ''
         if not x.get('ok'):
-            ctx.violation('C17:parse:roundtrip:error:%s' % features(meta['lines']), {'text': meta['text'], 'expected': meta['exp'], 'error': x.get('err')},
-                          'a rendering of %d records in the documented syntax is rejected: %s\n--- text ---\n%s' % (len(meta['exp']), x.get('err'), meta['text'][:600]))
+            ctx.violation('C17:parse:roundtrip:error:%s%s' % (features(meta['lines']), lsig), {'text': meta['text'], 'expected': meta['exp'], 'error': x.get('err'), 'long': meta.get('long')},
+                          'a rendering of %d records in the documented syntax is rejected%s: %s\n--- text ---\n%s' % (len(batch.meta[i]['exp']), lmsg, x.get('err'), meta['text'][:900]))
             continue
         got = [U.abstract_record(g) for g in x['recs']]
-        d = first_diff(meta['exp'], got)
+        d = first_diff(batch.meta[i]['exp'], got)
         if d:
-            ctx.violation('C17:parse:roundtrip:%s:%s' % (d, features(meta['lines'])), {'text': meta['text'], 'expected': meta['exp'], 'got': got},
-                          'rendering and parsing back does not return the same records (first difference: %s)\n--- text ---\n%s\n--- expected ---\n%s\n--- got ---\n%s' % (
-                              d, meta['text'][:600], json.dumps(meta['exp'])[:600], json.dumps(got)[:600]))
+            ctx.violation('C17:parse:roundtrip:%s:%s%s' % (d, features(meta['lines']), lsig),
+                          {'text': meta['text'], 'expected': meta['exp'], 'got': got if not lsig else '%d records' % len(got), 'long': meta.get('long')},
+                          'rendering and parsing back does not return the same records (first difference: %s; %d records expected, %d returned)%s\n--- text ---\n%s\n--- expected ---\n%s\n--- got ---\n%s' % (
+                              d, len(batch.meta[i]['exp']), len(got), lmsg, meta['text'][:900], json.dumps(meta['exp'])[:600], json.dumps(got)[:600]))
             continue
         matched += 1
         if sampled < 2 and len(meta['exp']) == 2 and 'multiline' in features(meta['lines']):
